@@ -111,3 +111,13 @@ Theorem c04_nonvacuous_unquoted :
   full_expand ex_oracles ex_env [WParam (EPlain (PNamed [120%N]))] = Ok [[42]; [97]; [97; 98]; [97]; [97; 98]]%N.
 Proof. exact ex_unquoted. Qed.
 Print Assumptions c04_nonvacuous_unquoted.
+
+(** What field splitting does to characters, for EVERY IFS and every expansion: read as tagged
+    characters, the fields that come out are exactly the characters that went in, in order, minus the
+    UNQUOTED characters that are in IFS.  No quoted character is dropped, moved or used as a
+    delimiter (mixed words like pre"$x"$y included). *)
+From BV Require Import Expand.SplitSpec Expand.SpecProofs.
+Theorem c04_split_only_removes_unquoted_ifs : forall e x,
+  all_tagged (split_fields e x) = filter (keep (ifs_of e)) (all_tagged (fields x)).
+Proof. exact split_only_removes_unquoted_ifs. Qed.
+Print Assumptions c04_split_only_removes_unquoted_ifs.
